@@ -1,289 +1,566 @@
-"""Translator for C12: regenerates, from the working tree's source, the table-like facts the CSRF model rests on.
+"""Translator for C12 — behavioural tables obtained by RUNNING the code of the tree under test.
 
- * viewderivers.py  csrf_view       : the built-in defaults used when no IDefaultCSRFOptions utility is registered
-                                      (default_val, token, header, safe_methods, check_origin, allow_no_origin, callback),
-                                      the attribute each option is read from otherwise, the `enabled` expressions, the guard
-                                      of the wrapper and the ORDER of the calls in it (origin check, token check, view)
- * csrf.py          check_csrf_token: signature defaults, the header-then-POST lookups
-                    check_csrf_origin: signature defaults, the https guard, the last-Origin-value rule, whether the caller's
-                                      list is copied before the own host is appended, whether urlparse's ValueError is caught
-                    storage policies : the codec arguments of the two `bytes_` calls and `not strings_differ(...)`
- * config/security.py set_default_csrf_options: signature defaults; DefaultCSRFOptions stores frozenset(safe_methods)
- * util.py          is_same_domain, strings_differ: normalised source text
+Nothing here pattern-matches the source.  The CSRF code of `src_root` is imported (the runner has put it first on
+sys.path; the import location is verified) and probed exhaustively over small finite domains; the observed verdicts
+are emitted as Lean rows, and `Props/C12.lean` decides that the model gives the same verdict on EVERY row.  A
+behaviour-preserving refactoring leaves every row unchanged; a change of a default, of the safe-method set, of the
+header/body/query lookups, of the codec, of the check order, of the list copy, of the ValueError handling … changes a row.
 
-Anything that does not have the expected shape is emitted as the string "unknown" (or an `unknown` entry), which makes the
-`decide`d obligations in Props/C12.lean fail.
+Tables (domains in the functions below):
+  viewRows    csrf_view(view, info) called directly (real Registry, SessionCSRFStoragePolicy, real Request):
+              require_csrf x exception_only x defaults (absent / 11 option sets) x requests (13 methods, 10 token
+              placements, 6 https origin scenarios); outcome ran/badtoken/badorigin + number of callback calls
+  originRows  check_csrf_origin on real Requests: 3 hosts x 17 Origin/Referer values x trusted (argument omitted ->
+              settings, or a list) x allow_no_origin / raises (omitted or given); verdict, the argument list afterwards,
+              the settings list afterwards
+  tokenRows   check_csrf_token: 3 storage policies x names (omitted / given / None) x 9 placements x raises
+  policyRows  policy.check_csrf_token(request, supplied): 3 policies x held x supplied (prefix, case, non-latin-1, mojibake)
+  domainRows  util.is_same_domain over 8 hosts x 9 patterns;  differRows  util.strings_differ over 5 x 5 byte strings
+  optionsDefaults / optionsStore   Configurator().set_default_csrf_options() with no / with distinct arguments,
+              read back from the registered IDefaultCSRFOptions utility
+Fail closed: any unexpected exception or value becomes the string "unknown:…" in the row's outcome (the model never
+produces it), a probe that cannot even be set up yields a single unknown row.
 """
-import ast, os
+import io, os, sys, traceback
 
 summary = {}
+FORM = 'application/x-www-form-urlencoded'
+FRESH = 'fresh'
 
 
-def _find(tree, name, cls=None):
-    for n in ast.walk(tree):
-        if cls is not None:
-            if isinstance(n, ast.ClassDef) and n.name == cls:
-                for f in n.body:
-                    if isinstance(f, ast.FunctionDef) and f.name == name:
-                        return f
-        elif isinstance(n, ast.FunctionDef) and n.name == name:
-            return n
-    return None
+# ------------------------------------------------------------------------------------------------------------ helpers
+
+def _environ(req):
+    from urllib.parse import urlencode
+    env = {'REQUEST_METHOD': req['method'], 'wsgi.url_scheme': req['scheme'], 'SCRIPT_NAME': '', 'PATH_INFO': '/p',
+           'SERVER_PROTOCOL': 'HTTP/1.1', 'wsgi.version': (1, 0), 'wsgi.errors': sys.stderr,
+           'wsgi.multithread': False, 'wsgi.multiprocess': False, 'wsgi.run_once': False}
+    env.update(req['environ'])
+    env.setdefault('SERVER_NAME', 'srv.example')
+    env.setdefault('SERVER_PORT', '443' if req['scheme'] == 'https' else '80')
+    body = urlencode([tuple(p) for p in req['form']]).encode('ascii')
+    env['wsgi.input'] = io.BytesIO(body)
+    env['CONTENT_LENGTH'] = str(len(body))
+    env['QUERY_STRING'] = urlencode([tuple(p) for p in req['query']])
+    return env
 
 
-def _u(node):
+def _model_environ(req):
+    e = dict(req['environ'])
+    e.setdefault('SERVER_NAME', 'srv.example')
+    e.setdefault('SERVER_PORT', '443' if req['scheme'] == 'https' else '80')
+    return sorted(e.items())
+
+
+def _req(method='POST', scheme='http', env=None, form=None, query=None, stored='abc123'):
+    e = {'HTTP_HOST': 'example.com'}
+    e.update(env or {})
+    if 'CONTENT_TYPE' not in e and method not in ('GET', 'HEAD'):
+        e['CONTENT_TYPE'] = FORM
+    return {'method': method, 'scheme': scheme, 'environ': e, 'form': form or [], 'query': query or [], 'stored': stored}
+
+
+def _outcome(fn):
     try:
-        return ast.unparse(node)
-    except Exception:
-        return 'unknown'
+        r = fn()
+    except Exception as e:
+        n = type(e).__name__
+        return {'BadCSRFToken': 'badtoken', 'BadCSRFOrigin': 'badorigin'}.get(n, 'unknown:' + n)
+    if r is True:
+        return 'True'
+    if r is False:
+        return 'False'
+    return 'unknown:returned'
 
 
-def _const(node):
-    """python literal -> a tagged string"""
-    if isinstance(node, ast.Constant):
-        v = node.value
-        if v is None:
-            return 'None'
-        if v is True:
-            return 'True'
-        if v is False:
-            return 'False'
-        if isinstance(v, str):
-            return 'str:' + v
-    return 'unknown'
+class _Api:
+    """the objects of the tree under test"""
+
+    def __init__(self, src_root):
+        import pyramid
+        if not os.path.realpath(pyramid.__file__).startswith(os.path.realpath(src_root) + os.sep):
+            raise RuntimeError('pyramid imported from %s, not from %s' % (pyramid.__file__, src_root))
+        import pyramid.csrf as csrf, pyramid.viewderivers as vd, pyramid.util as util
+        from pyramid.request import Request
+        from pyramid.registry import Registry
+        from pyramid.interfaces import ICSRFStoragePolicy, IDefaultCSRFOptions
+        from pyramid.session import SignedCookieSessionFactory
+        from pyramid.config import Configurator
+        self.csrf, self.vd, self.util = csrf, vd, util
+        self.Request, self.Registry, self.Configurator = Request, Registry, Configurator
+        self.ICSRFStoragePolicy, self.IDefaultCSRFOptions = ICSRFStoragePolicy, IDefaultCSRFOptions
+        self.session_factory = SignedCookieSessionFactory('probe-secret')
+
+    def request(self, req, storage='session', settings_trusted=None, defaults=None):
+        request = self.Request(_environ(req))
+        reg = self.Registry('probe')
+        reg.settings = {}
+        if settings_trusted is not None:
+            reg.settings['pyramid.csrf_trusted_origins'] = settings_trusted
+        pol = {'legacy': self.csrf.LegacySessionCSRFStoragePolicy, 'session': self.csrf.SessionCSRFStoragePolicy,
+               'cookie': self.csrf.CookieCSRFStoragePolicy}[storage]()
+        if storage != 'legacy':
+            pol._token_factory = lambda: FRESH
+        reg.registerUtility(pol, self.ICSRFStoragePolicy)
+        if defaults is not None:
+            reg.registerUtility(defaults, self.IDefaultCSRFOptions)
+        request.registry = reg
+        if storage != 'cookie':
+            sess = self.session_factory(request)          # pyramid's real cookie session (legacy get_csrf_token lives there)
+            if req['stored'] is not None:
+                sess['_csrft_'] = req['stored']
+            request.session = sess
+        return request, pol
 
 
-def _strlist(node):
-    """frozenset([...]) / tuple / list of string constants -> sorted list of str, or ['unknown']"""
-    if isinstance(node, ast.Call) and getattr(node.func, 'id', None) == 'frozenset' and len(node.args) == 1:
-        node = node.args[0]
-    if isinstance(node, (ast.List, ast.Tuple, ast.Set)) and all(isinstance(e, ast.Constant) and isinstance(e.value, str) for e in node.elts):
-        return sorted(e.value for e in node.elts)
-    return ['unknown']
+def _with_cookie(req):
+    """cookie storage: the stored token travels in HTTP_COOKIE"""
+    r = dict(req)
+    r['environ'] = dict(req['environ'])
+    if req['stored'] is not None:
+        r['environ']['HTTP_COOKIE'] = 'csrf_token=' + req['stored']
+    return r
 
 
-def _sig_defaults(fn):
-    out = {}
-    if fn is None:
-        return {'unknown': 'unknown'}
-    a = fn.args
-    pos = a.posonlyargs + a.args
-    for arg, d in zip(pos[len(pos) - len(a.defaults):], a.defaults):
-        out[arg.arg] = _strlist(d) if isinstance(d, (ast.Tuple, ast.List)) else _const(d)
-    for arg, d in zip(a.kwonlyargs, a.kw_defaults):
+# ------------------------------------------------------------------------------------------------------------ probes
+
+DEF_STD = dict(require=True, token='csrf_token', header='X-CSRF-Token', safe=['GET', 'HEAD', 'OPTIONS', 'TRACE'],
+               check_origin=True, allow_no_origin=False, callback='none')
+
+
+def _defaults_variants():
+    v = lambda **kw: dict(DEF_STD, **kw)
+    return [v(), v(require=False), v(token=None, header=None), v(token='', header=None), v(token=None, header='X-H'),
+            v(check_origin=False), v(allow_no_origin=True), v(safe=['POST']), v(callback='true'), v(callback='false'),
+            v(token='tok', header=None)]
+
+
+def _token_placements(tokname='csrf_token', hdrkey='HTTP_X_CSRF_TOKEN'):
+    T = 'abc123'
+    return [
+        _req(),                                                                   # nothing supplied
+        _req(env={hdrkey: T}), _req(env={hdrkey: 'abc12'}), _req(env={hdrkey: 'ABC123'}),
+        _req(form=[[tokname, T]]), _req(form=[[tokname, 'abc1234']]),
+        _req(query=[[tokname, T]]),                                               # query string only
+        _req(env={hdrkey: ''}, form=[[tokname, T]]),                              # empty header -> body
+        _req(env={hdrkey: 'bad'}, form=[[tokname, T]]),                           # header wins
+        _req(form=[[tokname, 'old'], [tokname, T]]),                              # last body value
+        _req(env={hdrkey: FRESH}, stored=None),                                   # no stored token: a fresh one is minted
+    ]
+
+
+def _https_scenarios():
+    good = {'HTTP_X_CSRF_TOKEN': 'abc123'}
+    mk = lambda extra, tok=good: _req(scheme='https', env=dict(tok, **extra))
+    return [mk({}), mk({'HTTP_ORIGIN': 'https://example.com'}), mk({'HTTP_ORIGIN': 'https://evil.example'}),
+            mk({'HTTP_ORIGIN': 'null'}), mk({'HTTP_REFERER': 'https://example.com/page'}),
+            mk({'HTTP_ORIGIN': 'https://evil.example'}, tok={'HTTP_X_CSRF_TOKEN': 'wrong'})]      # both fail: which one is reported
+
+
+METHODS = ['GET', 'HEAD', 'OPTIONS', 'TRACE', 'POST', 'PUT', 'PATCH', 'DELETE', 'CONNECT', 'get', 'Post', 'FOO', '']
+
+
+def probe_view(api):
+    rows = []
+
+    def run(explicit, exc_only, d, req, trusted=()):
+        calls = [0]
+        defaults = None
         if d is not None:
-            out[arg.arg] = _const(d)
-    return out
+            def cb_true(request):
+                calls[0] += 1
+                return True
+
+            def cb_false(request):
+                calls[0] += 1
+                return False
+            cb = {'none': None, 'true': cb_true, 'false': cb_false}[d['callback']]
+            from pyramid.config.security import DefaultCSRFOptions
+            defaults = DefaultCSRFOptions(require_csrf=d['require'], token=d['token'], header=d['header'], safe_methods=tuple(d['safe']),
+                                          check_origin=d['check_origin'], allow_no_origin=d['allow_no_origin'], callback=cb)
+        ran = [0]
+
+        def view(context, request):
+            ran[0] += 1
+            return 'response'
+
+        def go():
+            request, _ = api.request(req, 'session', settings_trusted=list(trusted), defaults=defaults)
+
+            class Info:
+                pass
+            info = Info()
+            info.options = {'require_csrf': explicit}
+            info.registry = request.registry
+            info.exception_only = exc_only
+            info.original_view = view
+            wrapped = api.vd.csrf_view(view, info)
+            r = wrapped(None, request)
+            if r != 'response' or ran[0] != 1:
+                raise AssertionError('view result lost')
+            return True
+        out = _outcome(go)
+        if out == 'True':
+            out = 'ran'
+        elif out in ('badtoken', 'badorigin') and ran[0]:
+            out = 'unknown:ran-and-rejected'
+        rows.append({'explicit': repr(explicit), 'exc_only': exc_only, 'defaults': d, 'trusted': list(trusted), 'req': req, 'out': out, 'calls': calls[0]})
+
+    # A: the `enabled` truth table
+    for explicit in (True, False, None):
+        for exc_only in (False, True):
+            for d in (None, dict(DEF_STD), dict(DEF_STD, require=False), dict(DEF_STD, token=None, header=None), dict(DEF_STD, token='', header='')):
+                for req in (_req(), _req(env={'HTTP_X_CSRF_TOKEN': 'abc123'}), _req(method='GET')):
+                    run(explicit, exc_only, d, req)
+    # B: built-in defaults (no utility registered), explicit require_csrf=True
+    for m in METHODS:
+        run(True, False, None, _req(method=m))
+    for req in _token_placements() + _https_scenarios():
+        run(True, False, None, req)
+    run(True, False, None, _req(scheme='https', env={'HTTP_X_CSRF_TOKEN': 'abc123', 'HTTP_ORIGIN': 'https://sub.trusted.example'}), trusted=['.trusted.example'])
+    run(True, False, None, _req(scheme='https', env={'HTTP_X_CSRF_TOKEN': 'abc123', 'HTTP_ORIGIN': 'https://sub.trusted.example'}), trusted=[])
+    # C: every option of a registered utility is honoured
+    small = [_req(), _req(env={'HTTP_X_CSRF_TOKEN': 'abc123'}), _req(form=[['csrf_token', 'abc123']]), _req(env={'HTTP_X_H': 'abc123'}),
+             _req(form=[['tok', 'abc123']]), _req(method='DELETE'), _req(method='GET'),
+             _req(scheme='https', env={'HTTP_X_CSRF_TOKEN': 'abc123'}), _req(scheme='https', env={'HTTP_X_CSRF_TOKEN': 'abc123', 'HTTP_ORIGIN': 'https://evil.example'})]
+    for d in _defaults_variants():
+        for req in small:
+            run(None, False, d, req)
+    return rows
+
+
+ORIGIN_VALUES = [
+    {}, {'HTTP_ORIGIN': ''}, {'HTTP_ORIGIN': 'null'}, {'HTTP_ORIGIN': 'https://example.com'}, {'HTTP_ORIGIN': 'https://example.com:8443'},
+    {'HTTP_ORIGIN': 'https://example.com:443'}, {'HTTP_ORIGIN': 'http://example.com'}, {'HTTP_ORIGIN': 'https://sub.trusted.example'},
+    {'HTTP_ORIGIN': 'https://xtrusted.example'}, {'HTTP_ORIGIN': 'https://['}, {'HTTP_ORIGIN': 'https://evil.example https://example.com'},
+    {'HTTP_ORIGIN': 'https://example.com https://evil.example'}, {'HTTP_REFERER': 'https://example.com/path?q'}, {'HTTP_REFERER': 'null'},
+    {'HTTP_ORIGIN': 'https://evil.example', 'HTTP_REFERER': 'https://example.com'}, {'HTTP_ORIGIN': 'HTTPS://example.com/x'}, {'HTTP_REFERER': ''},
+]
+
+
+def probe_origin(api):
+    rows = []
+
+    def run(req, trusted_arg, settings, allow, raises):
+        settings = list(settings)
+        request, _ = api.request(req, 'session', settings_trusted=list(settings))
+        lst = None if trusted_arg is None else list(trusted_arg)
+        kw = {}
+        if lst is not None:
+            kw['trusted_origins'] = lst
+        if allow is not None:
+            kw['allow_no_origin'] = allow
+        if raises is not None:
+            kw['raises'] = raises
+        out = _outcome(lambda: api.csrf.check_csrf_origin(request, **kw))
+        after = request.registry.settings.get('pyramid.csrf_trusted_origins')
+        rows.append({'req': req, 'trusted_arg': trusted_arg, 'settings': list(settings), 'allow': allow, 'raises': raises, 'out': out,
+                     'left': lst, 'settings_after': list(after) if isinstance(after, list) else ['unknown']})
+
+    for host in ('example.com', 'example.com:8443', 'example.com:443'):
+        for v in ORIGIN_VALUES:
+            run(_req(scheme='https', env=dict({'HTTP_HOST': host}, **v)), None, [], None, False)
+    for trusted_arg, settings in ((None, ['.trusted.example', 'null']), ([], ['.trusted.example']), (['null'], []), (['.trusted.example'], []), (['example.com:8443'], [])):
+        for v in ORIGIN_VALUES:
+            run(_req(scheme='https', env=dict(v)), trusted_arg, settings, None, False)
+    for v in (ORIGIN_VALUES[0], ORIGIN_VALUES[1], ORIGIN_VALUES[3], ORIGIN_VALUES[8], ORIGIN_VALUES[9], ORIGIN_VALUES[16]):
+        for allow in (None, True, False):
+            for raises in (None, True, False):
+                run(_req(scheme='https', env=dict(v)), None, [], allow, raises)
+    for v in (ORIGIN_VALUES[0], ORIGIN_VALUES[8]):
+        run(_req(scheme='http', env=dict(v)), None, [], None, None)
+    return rows
+
+
+def probe_token(api):
+    rows = []
+    for storage in ('legacy', 'session', 'cookie'):
+        for names in ('omitted', ('tok', 'X-H'), ('csrf_token', None), (None, 'X-CSRF-Token'), (None, None)):
+            tokname, hdr = ('csrf_token', 'X-CSRF-Token') if names == 'omitted' else names
+            hdrkey = 'HTTP_' + (hdr or 'X-CSRF-Token').upper().replace('-', '_')
+            for req in _token_placements(tokname or 'csrf_token', hdrkey):
+                if storage == 'legacy' and req['stored'] is None:
+                    req = dict(req, environ=dict(req['environ'], **{hdrkey: 'not-the-random-token'}))
+                for raises in ((None, False) if names == 'omitted' else (False,)):
+                    q = _with_cookie(req) if storage == 'cookie' else req
+                    request, _ = api.request(q, storage)
+                    kw = {}
+                    if names != 'omitted':
+                        kw = {'token': tokname, 'header': hdr}
+                    if raises is not None:
+                        kw['raises'] = raises
+                    out = _outcome(lambda: api.csrf.check_csrf_token(request, **kw))
+                    rows.append({'storage': storage, 'omitted': names == 'omitted', 'token': tokname, 'header': hdr, 'raises': raises, 'req': q, 'out': out})
+    return rows
+
+
+def probe_policy(api):
+    rows = []
+    held_all = ['abc', 'tök€n', 'é', None, '']
+    supplied_all = ['abc', 'ab', 'abcd', 'ABC', '', '€', 'tök€n', 'Ã©', 'é', FRESH]
+    for storage in ('legacy', 'session', 'cookie'):
+        for held in held_all:
+            if storage == 'cookie' and held is not None and any(ord(c) > 126 for c in held):
+                continue
+            for sup in supplied_all:
+                if storage == 'legacy' and held is None and sup == FRESH:
+                    continue          # the legacy session mints a random token
+                req = _req(stored=held)
+                q = _with_cookie(req) if storage == 'cookie' else req
+                request, pol = api.request(q, storage)
+                out = _outcome(lambda: pol.check_csrf_token(request, sup))
+                rows.append({'storage': storage, 'req': q, 'supplied': sup, 'out': out})
+    return rows
+
+
+def probe_domain(api):
+    hosts = ['example.com', 'sub.example.com', 'evilexample.com', 'Example.com', '', 'com', '.example.com', 'example.com.']
+    pats = ['', '.', 'example.com', '.example.com', 'EXAMPLE.com', '.Example.COM', '.com', 'sub.example.com', 'com']
+    return [{'host': h, 'pattern': p, 'out': _outcome(lambda: api.util.is_same_domain(h, p))} for h in hosts for p in pats]
+
+
+def probe_differ(api):
+    xs = ['', 'a', 'ab', 'abc', 'abd']
+    return [{'a': a, 'b': b, 'out': _outcome(lambda: api.util.strings_differ(a.encode(), b.encode()))} for a in xs for b in xs]
+
+
+def probe_options(api):
+    """set_default_csrf_options(): what lands in the utility with no arguments, and where each argument lands"""
+    def read(opts):
+        return {'require': opts.require_csrf, 'token': opts.token, 'header': opts.header, 'safe': sorted(opts.safe_methods),
+                'check_origin': opts.check_origin, 'allow_no_origin': opts.allow_no_origin, 'callback': opts.callback}
+    c = api.Configurator()
+    c.set_default_csrf_options()
+    c.commit()
+    d = read(c.registry.getUtility(api.IDefaultCSRFOptions))
+    ok = (d['require'] in (True, False) and (d['token'] is None or isinstance(d['token'], str)) and (d['header'] is None or isinstance(d['header'], str))
+          and all(isinstance(m, str) for m in d['safe']) and d['check_origin'] in (True, False) and d['allow_no_origin'] in (True, False))
+    if not ok:
+        raise ValueError('unexpected default option values')
+    d['callback'] = 'none' if d['callback'] is None else 'unknown'
+    cb = lambda request: True
+    c2 = api.Configurator()
+    sent = {'require_csrf': 'S-require', 'token': 'S-token', 'header': 'S-header', 'safe_methods': ('S-safe',), 'check_origin': 'S-check', 'allow_no_origin': 'S-allow', 'callback': cb}
+    c2.set_default_csrf_options(**sent)
+    c2.commit()
+    o = c2.registry.getUtility(api.IDefaultCSRFOptions)
+    name_of = {'S-require': 'require_csrf', 'S-token': 'token', 'S-header': 'header', 'S-check': 'check_origin', 'S-allow': 'allow_no_origin'}
+    store = []
+    for attr in ('allow_no_origin', 'callback', 'check_origin', 'header', 'require_csrf', 'safe_methods', 'token'):
+        v = getattr(o, attr, 'missing')
+        if v is cb:
+            src = 'callback'
+        elif isinstance(v, (set, frozenset)) and set(v) == {'S-safe'}:
+            src = 'safe_methods'
+        elif isinstance(v, str) and v in name_of:
+            src = name_of[v]
+        else:
+            src = 'unknown'
+        store.append((attr, src))
+    return d, store
 
 
 def facts(src_root):
-    rd = lambda *p: open(os.path.join(src_root, 'pyramid', *p)).read()
-    vt = ast.parse(rd('viewderivers.py'))
-    ct = ast.parse(rd('csrf.py'))
-    st = ast.parse(rd('config', 'security.py'))
-    ut = ast.parse(rd('util.py'))
     out = {}
-
-    # ---- csrf_view deriver
-    f = _find(vt, 'csrf_view')
-    builtin, attrs, enabled, inner = {}, {}, [], None
-    if f is not None:
-        for s_ in f.body:
-            if isinstance(s_, ast.If) and _u(s_.test) == 'defaults is None':
-                for a in s_.body:
-                    if isinstance(a, ast.Assign) and len(a.targets) == 1 and isinstance(a.targets[0], ast.Name):
-                        nm = a.targets[0].id
-                        builtin[nm] = _strlist(a.value) if nm == 'safe_methods' else _const(a.value)
-                    else:
-                        builtin['unknown'] = 'unknown'
-                for a in s_.orelse:
-                    if (isinstance(a, ast.Assign) and len(a.targets) == 1 and isinstance(a.targets[0], ast.Name)
-                            and isinstance(a.value, ast.Attribute) and _u(a.value.value) == 'defaults'):
-                        attrs[a.targets[0].id] = a.value.attr
-                    else:
-                        attrs['unknown'] = 'unknown'
-            elif isinstance(s_, ast.Assign) and _u(s_.targets[0]) == 'enabled':
-                enabled.append(_u(s_.value))
-            elif isinstance(s_, ast.If) and _u(s_.test) == 'enabled':
-                for a in s_.body:
-                    if isinstance(a, ast.FunctionDef):
-                        inner = a
-    out['builtin'] = builtin or {'unknown': 'unknown'}
-    out['attrs'] = attrs or {'unknown': 'unknown'}
-    out['enabled'] = enabled or ['unknown']
-    guard, order = 'unknown', ['unknown']
-    if inner is not None and len(inner.body) == 2 and isinstance(inner.body[0], ast.If) and isinstance(inner.body[1], ast.Return):
-        guard = _u(inner.body[0].test)
-        order = []
-        if inner.body[0].orelse:
-            order.append('unknown')
-        for s_ in inner.body[0].body:
-            if isinstance(s_, ast.If) and not s_.orelse and len(s_.body) == 1 and isinstance(s_.body[0], ast.Expr):
-                order.append('if %s: %s' % (_u(s_.test), _u(s_.body[0].value)))
-            elif isinstance(s_, ast.Expr):
-                order.append(_u(s_.value))
-            else:
-                order.append('unknown')
-        order.append('return ' + _u(inner.body[1].value))
-    out['guard'] = guard
-    out['order'] = order
-
-    # ---- check_csrf_token / check_csrf_origin
-    f = _find(ct, 'check_csrf_token')
-    out['token_sig'] = _sig_defaults(f) if isinstance(f, ast.FunctionDef) and not any(isinstance(p, ast.ClassDef) for p in []) else {'unknown': 'unknown'}
-    # the module-level function (not the methods): take the one whose first argument is `request` and that has `raises`
-    mod_fn = None
-    for n in ct.body:
-        if isinstance(n, ast.FunctionDef) and n.name == 'check_csrf_token':
-            mod_fn = n
-    out['token_sig'] = _sig_defaults(mod_fn)
-    lookups = []
-    if mod_fn is not None:
-        for s_ in mod_fn.body:
-            if isinstance(s_, ast.Assign) and _u(s_.targets[0]) == 'supplied_token':
-                lookups.append('supplied_token = ' + _u(s_.value))
-            elif isinstance(s_, ast.If) and any(isinstance(b, ast.Assign) and _u(b.targets[0]) == 'supplied_token' for b in s_.body):
-                lookups.append('if %s: %s' % (_u(s_.test), '; '.join(_u(b) for b in s_.body)))
-            elif isinstance(s_, ast.If) and 'check_csrf_token' in _u(s_.test):
-                lookups.append('if %s: ...' % _u(s_.test))
-    out['token_lookups'] = lookups or ['unknown']
-
-    f = None
-    for n in ct.body:
-        if isinstance(n, ast.FunctionDef) and n.name == 'check_csrf_origin':
-            f = n
-    out['origin_sig'] = _sig_defaults(f)
-    copies = catches = https_guard = last_origin = False
-    appends = []
-    if f is not None:
-        for n in ast.walk(f):
-            if isinstance(n, ast.If) and _u(n.test) == 'trusted_origins is None':
-                copies = any(_u(b) == 'trusted_origins = list(trusted_origins)' for b in n.orelse)
-            if isinstance(n, ast.Try):
-                body_ok = (len(n.body) == 1 and isinstance(n.body[0], ast.Assign) and len(n.body[0].targets) == 1
-                           and isinstance(n.body[0].targets[0], ast.Name) and _u(n.body[0].value) == 'urlparse(origin)')
-                h_ok = (len(n.handlers) == 1 and _u(n.handlers[0].type) == 'ValueError' and len(n.handlers[0].body) == 1
-                        and isinstance(n.handlers[0].body[0], ast.Return) and _u(n.handlers[0].body[0].value).startswith('_fail('))
-                catches = body_ok and h_ok
-            if isinstance(n, ast.If) and _u(n.test) in ("request.scheme != 'https'",) and len(n.body) == 1 and _u(n.body[0]) == 'return True':
-                https_guard = True
-            if isinstance(n, ast.Assign) and _u(n) == "origin = origin.split(' ')[-1]":
-                last_origin = True
-            if isinstance(n, ast.Expr) and _u(n.value).startswith('trusted_origins.append('):
-                appends.append(_u(n.value))
-        # urlparse must not ALSO be called outside the try
-        calls = [n for n in ast.walk(f) if isinstance(n, ast.Call) and _u(n.func) == 'urlparse']
-        if len(calls) != 1:
-            catches = False
-    out['copies_trusted'] = copies
-    out['catches_valueerror'] = catches
-    out['https_guard'] = https_guard
-    out['last_origin_value'] = last_origin
-    out['appends'] = appends or ['unknown']
-
-    # ---- storage policies: codec arguments
-    codecs = []
-    for cls in ('LegacySessionCSRFStoragePolicy', 'SessionCSRFStoragePolicy', 'CookieCSRFStoragePolicy'):
-        m = _find(ct, 'check_csrf_token', cls)
-        entry = [cls, 'unknown', 'unknown', 'unknown']
-        if m is not None:
-            rets = [n for n in ast.walk(m) if isinstance(n, ast.Return)]
-            if len(rets) == 1 and isinstance(rets[0].value, ast.UnaryOp) and isinstance(rets[0].value.op, ast.Not):
-                call = rets[0].value.operand
-                if isinstance(call, ast.Call) and _u(call.func) == 'strings_differ' and len(call.args) == 2:
-                    encs = []
-                    for a in call.args:
-                        if isinstance(a, ast.Call) and _u(a.func) == 'bytes_':
-                            if len(a.args) == 2 and isinstance(a.args[1], ast.Constant):
-                                encs.append(str(a.args[1].value))
-                            elif len(a.args) == 1 and not a.keywords:
-                                encs.append('latin-1')     # the default of bytes_
-                            else:
-                                encs.append('unknown')
-                        else:
-                            encs.append('unknown')
-                    entry = [cls, encs[0], encs[1], 'not strings_differ']
-        codecs.append(entry)
-    out['codecs'] = codecs
-    bf = _find(ut, 'bytes_')
-    out['bytes_default'] = _sig_defaults(bf).get('encoding', 'unknown')
-
-    # ---- set_default_csrf_options / DefaultCSRFOptions
-    out['options_sig'] = _sig_defaults(_find(st, 'set_default_csrf_options'))
-    init = _find(st, '__init__', 'DefaultCSRFOptions')
-    out['options_store'] = sorted(_u(s_) for s_ in init.body) if init is not None else ['unknown']
-
-    # ---- util
-    def body_src(fn):
-        if fn is None:
-            return 'unknown'
-        b = [s_ for s_ in fn.body if not (isinstance(s_, ast.Expr) and isinstance(s_.value, ast.Constant) and isinstance(s_.value.value, str))]
-        return '; '.join(_u(s_).replace('\n', ' ') for s_ in b)
-    out['is_same_domain'] = ' '.join(body_src(_find(ut, 'is_same_domain')).split())
-    out['strings_differ'] = ' '.join(body_src(_find(ut, 'strings_differ')).split())
+    try:
+        api = _Api(src_root)
+    except Exception as e:
+        api = None
+        out['setup_error'] = ''.join(traceback.format_exception_only(type(e), e)).strip()
+    for name, fn in (('view', probe_view), ('origin', probe_origin), ('token', probe_token), ('policy', probe_policy),
+                     ('domain', probe_domain), ('differ', probe_differ)):
+        try:
+            if api is None:
+                raise RuntimeError('setup failed')
+            out[name] = fn(api)
+        except Exception as e:
+            out[name] = None
+            out[name + '_error'] = ''.join(traceback.format_exception_only(type(e), e)).strip()
+    try:
+        if api is None:
+            raise RuntimeError('setup failed')
+        out['options_defaults'], out['options_store'] = probe_options(api)
+    except Exception as e:
+        out['options_defaults'], out['options_store'] = None, [('unknown', 'unknown')]
+        out['options_error'] = ''.join(traceback.format_exception_only(type(e), e)).strip()
     summary.clear()
-    summary.update({k: out[k] for k in ('builtin', 'order', 'codecs', 'copies_trusted', 'catches_valueerror')})
+    summary.update({k: (len(v) if isinstance(v, list) else v) for k, v in out.items() if k in ('view', 'origin', 'token', 'policy', 'domain', 'differ') or k.endswith('_error')})
+    summary['method'] = 'probed by running the code under test (no AST matching)'
     return out
 
 
+# ------------------------------------------------------------------------------------------------------------ Lean text
+
 def _ls(s_):
-    return '"' + str(s_).replace('\\', '\\\\').replace('"', '\\"') + '"'
+    o = ['"']
+    for ch in str(s_):
+        c = ord(ch)
+        if ch == '\\':
+            o.append('\\\\')
+        elif ch == '"':
+            o.append('\\"')
+        elif c < 32 or c == 127:
+            o.append('\\x%02x' % c)
+        else:
+            o.append(ch)
+    o.append('"')
+    return ''.join(o)
+
+
+def _lo(v):
+    return 'none' if v is None else '(some %s)' % _ls(v)
+
+
+def _lb(b):
+    return 'true' if b else 'false'
+
+
+def _lob(b):
+    return 'none' if b is None else '(some %s)' % _lb(b)
 
 
 def _ll(xs):
     return '[' + ', '.join(_ls(x) for x in xs) + ']'
 
 
-def _pairs(d):
-    items = []
-    for k in sorted(d):
-        v = d[k]
-        items.append('(%s, %s)' % (_ls(k), _ls(','.join(v) if isinstance(v, list) else v)))
-    return '[' + ', '.join(items) + ']'
+def _lol(xs):
+    return 'none' if xs is None else '(some %s)' % _ll(xs)
+
+
+def _lp(ps):
+    return '[' + ', '.join('(%s, %s)' % (_ls(k), _ls(v)) for k, v in ps) + ']'
+
+
+def _lreq(r):
+    return '⟨%s, %s, %s, %s, %s, %s⟩' % (_ls(r['method']), _ls(r['scheme']), _lp(_model_environ(r)), _lp(r['form']), _lp(r['query']), _lo(r['stored']))
+
+
+def _ldef(d):
+    if d is None:
+        return 'none'
+    return '(some ⟨%s, %s, %s, %s, %s, %s, %s⟩)' % (_lb(d['require']), _lo(d['token']), _lo(d['header']), _ll(d['safe']), _lb(d['check_origin']),
+                                                     _lb(d['allow_no_origin']), _ls(d['callback']))
+
+
+HEADER = '''/-! GENERATED by extract/c12.py by RUNNING pyramid.csrf / viewderivers.csrf_view / util / config.security of the tree
+under test over finite probe domains — do not edit. -/
+namespace Pyr.Gen.C12
+
+structure ReqRow where
+  method : String
+  scheme : String
+  environ : List (String × String)
+  form : List (String × String)
+  query : List (String × String)
+  stored : Option String
+deriving Repr
+
+structure DefRow where
+  require : Bool
+  token : Option String
+  header : Option String
+  safe : List String
+  checkOrigin : Bool
+  allowNoOrigin : Bool
+  callback : String
+deriving Repr, DecidableEq
+
+/-- one call of the wrapper `csrf_view(view, info)` derives -/
+structure ViewRow where
+  explicit : String
+  excOnly : Bool
+  defaults : Option DefRow
+  trusted : List String
+  req : ReqRow
+  out : String
+  callbackCalls : Nat
+deriving Repr
+
+/-- one call of `check_csrf_origin`; `none` = the argument was omitted -/
+structure OriginRow where
+  req : ReqRow
+  trustedArg : Option (List String)
+  settings : List String
+  allow : Option Bool
+  raises : Option Bool
+  out : String
+  left : Option (List String)
+  settingsAfter : List String
+deriving Repr
+
+structure TokenRow where
+  storage : String
+  omitted : Bool
+  token : Option String
+  header : Option String
+  raises : Option Bool
+  req : ReqRow
+  out : String
+deriving Repr
+
+structure PolicyRow where
+  storage : String
+  req : ReqRow
+  supplied : String
+  out : String
+deriving Repr
+
+structure DomainRow where
+  host : String
+  pattern : String
+  out : String
+deriving Repr
+
+structure DifferRow where
+  a : String
+  b : String
+  out : String
+deriving Repr
+'''
+
+UNKNOWN_REQ = '⟨"unknown", "unknown", [], [], [], none⟩'
+
+
+def _table(name, typ, rows, fmt, unknown_row):
+    L = ['', 'def %s : List %s := [' % (name, typ)]
+    if rows is None or not rows:
+        L.append('  ' + unknown_row)
+    else:
+        L += ['  ' + fmt(r) + (',' if i + 1 < len(rows) else '') for i, r in enumerate(rows)]
+    L.append(']')
+    return L
 
 
 def generate(src_root):
     f = facts(src_root)
-    b = f['builtin']
-    L = ['/-! GENERATED by extract/c12.py from src/pyramid/viewderivers.py, csrf.py, config/security.py, util.py — do not edit. -/',
-         'namespace Pyr.Gen.C12', '',
-         '/-- csrf_view, `if defaults is None:` branch: name ↦ literal (`str:…`, `True`, `False`, `None`; safe_methods joined by `,`) -/',
-         'def builtin : List (String × String) := ' + _pairs(b),
-         '/-- the built-in safe-method set, sorted -/',
-         'def builtinSafeMethods : List String := ' + _ll(b.get('safe_methods', ['unknown']) if isinstance(b.get('safe_methods'), list) else ['unknown']),
-         '/-- csrf_view, else branch: local name ↦ attribute of the IDefaultCSRFOptions utility -/',
-         'def attrs : List (String × String) := ' + _pairs(f['attrs']),
-         '/-- the successive right-hand sides of `enabled = …` -/',
-         'def enabledExprs : List String := ' + _ll(f['enabled']),
-         '/-- guard of the wrapper: when are the checks made -/',
-         'def guard : String := ' + _ls(f['guard']),
-         '/-- the statements under the guard, in order, then the return -/',
-         'def order : List String := ' + _ll(f['order']),
-         '',
-         'def tokenSig : List (String × String) := ' + _pairs(f['token_sig']),
-         'def tokenLookups : List String := ' + _ll(f['token_lookups']),
-         'def originSig : List (String × String) := ' + _pairs(f['origin_sig']),
-         '/-- `trusted_origins = list(trusted_origins)` in the else branch of `if trusted_origins is None` -/',
-         'def copiesTrusted : Bool := ' + ('true' if f['copies_trusted'] else 'false'),
-         '/-- the single `urlparse(origin)` call sits in `try … except ValueError: return _fail(…)` -/',
-         'def catchesValueError : Bool := ' + ('true' if f['catches_valueerror'] else 'false'),
-         'def httpsGuard : Bool := ' + ('true' if f['https_guard'] else 'false'),
-         'def lastOriginValue : Bool := ' + ('true' if f['last_origin_value'] else 'false'),
-         'def appends : List String := ' + _ll(f['appends']),
-         '/-- per storage policy: class, codec of the held token, codec of the supplied token, shape of the return -/',
-         'def codecs : List (List String) := [' + ', '.join(_ll(c) for c in f['codecs']) + ']',
-         'def bytesDefault : String := ' + _ls(f['bytes_default']),
-         '',
-         'def optionsSig : List (String × String) := ' + _pairs(f['options_sig']),
-         'def optionsStore : List String := ' + _ll(f['options_store']),
-         'def isSameDomainSrc : String := ' + _ls(f['is_same_domain']),
-         'def stringsDifferSrc : String := ' + _ls(f['strings_differ']),
-         '', 'end Pyr.Gen.C12', '']
+    L = [HEADER]
+    L += _table('viewRows', 'ViewRow', f['view'],
+                lambda r: '⟨%s, %s, %s, %s, %s, %s, %d⟩' % (_ls(r['explicit']), _lb(r['exc_only']), _ldef(r['defaults']), _ll(r['trusted']), _lreq(r['req']), _ls(r['out']), r['calls']),
+                '⟨"unknown", false, none, [], %s, "unknown", 0⟩' % UNKNOWN_REQ)
+    L += _table('originRows', 'OriginRow', f['origin'],
+                lambda r: '⟨%s, %s, %s, %s, %s, %s, %s, %s⟩' % (_lreq(r['req']), _lol(r['trusted_arg']), _ll(r['settings']), _lob(r['allow']), _lob(r['raises']), _ls(r['out']),
+                                                                _lol(r['left']), _ll(r['settings_after'])),
+                '⟨%s, none, [], none, none, "unknown", none, []⟩' % UNKNOWN_REQ)
+    L += _table('tokenRows', 'TokenRow', f['token'],
+                lambda r: '⟨%s, %s, %s, %s, %s, %s, %s⟩' % (_ls(r['storage']), _lb(r['omitted']), _lo(r['token']), _lo(r['header']), _lob(r['raises']), _lreq(r['req']), _ls(r['out'])),
+                '⟨"unknown", false, none, none, none, %s, "unknown"⟩' % UNKNOWN_REQ)
+    L += _table('policyRows', 'PolicyRow', f['policy'],
+                lambda r: '⟨%s, %s, %s, %s⟩' % (_ls(r['storage']), _lreq(r['req']), _ls(r['supplied']), _ls(r['out'])),
+                '⟨"unknown", %s, "", "unknown"⟩' % UNKNOWN_REQ)
+    L += _table('domainRows', 'DomainRow', f['domain'], lambda r: '⟨%s, %s, %s⟩' % (_ls(r['host']), _ls(r['pattern']), _ls(r['out'])), '⟨"", "", "unknown"⟩')
+    L += _table('differRows', 'DifferRow', f['differ'], lambda r: '⟨%s, %s, %s⟩' % (_ls(r['a']), _ls(r['b']), _ls(r['out'])), '⟨"", "", "unknown"⟩')
+    d = f['options_defaults']
+    L += ['', '/-- what `Configurator().set_default_csrf_options()` (no arguments) registers -/',
+          'def optionsDefaults : Option DefRow := ' + (_ldef(d) if d is not None else 'none'),
+          '/-- utility attribute ↦ the argument of set_default_csrf_options whose (distinct) value landed there -/',
+          'def optionsStore : List (String × String) := ' + _lp(f['options_store']),
+          '', 'end Pyr.Gen.C12', '']
     return {'PyramidModel/Gen/C12.lean': '\n'.join(L)}
 
 
 if __name__ == '__main__':
-    import sys, json
     root = sys.argv[1] if len(sys.argv) > 1 else '/repo/src'
-    print(json.dumps(facts(root), indent=1))
-    print(generate(root)['PyramidModel/Gen/C12.lean'])
+    sys.path.insert(0, root)
+    txt = generate(root)['PyramidModel/Gen/C12.lean']
+    print(txt[:3000])
+    print(summary)
